@@ -51,6 +51,8 @@ Kernels == {
     K("forself", << "10 I=5:S=2", "20 FOR I=1 TO I+1:PRINT I;:NEXT I", "30 FOR S=S TO 6 STEP S:PRINT S;:NEXT S", "40 FOR J=J+3 TO J+4:PRINT J;:NEXT J" >>),
     \* STOP as the whole THEN clause, with an ELSE behind it: CONT resumes after the line
     K("stopelse", << "10 X=1:IF X THEN STOP ELSE PRINT \"NO\"", "20 PRINT \"AFTER\";X", "30 IF 0 THEN PRINT 1 ELSE STOP", "40 PRINT \"END\"" >>),
+    \* STEP 0 counts as a positive step: the body runs once when the start is already past the limit
+    K("stepzero", << "10 FOR I=5 TO 1 STEP 0:PRINT I;:NEXT I", "20 FOR J=3 TO 2 STEP S:PRINT J;:NEXT J", "30 PRINT \"E\"" >>),
     K("input2",  << "10 IF 1 THEN INPUT X ELSE PRINT \"NO\"", "20 GOSUB 100:PRINT X;S$", "30 IF 0 THEN PRINT 1 ELSE INPUT Q(2):PRINT Q(2)", "40 END",
                     "100 INPUT S$:RETURN" >>)
 }
@@ -96,6 +98,8 @@ MatrixKernels == { [name |-> st.n \o "_" \o cx.n,
                                  B("20 PRINT \"|\";X;I:IF I<2 THEN NEXT I"), B("30 END"), B("100 PRINT \"sub\";:RETURN") >>]
                    : st \in MStmts, cx \in MCtxs }
 RunCont == { B("RUN"), B("CONT") }
+\* FOR / NEXT typed at the prompt: all immediate lines share one location, and the loop stack survives between them
+ImmLoopLines == { B("FOR I=1 TO 2"), B("FOR J=1 TO 2"), B("FOR I=1 TO 1"), B("NEXT I"), B("NEXT J"), B("PRINT I;J"), B("X=0:FOR I=1 TO 3") }
 MatrixInputKernels == {k \in MatrixKernels : \E cx \in MCtxs : k.name = "input_" \o cx.n}
 
 \* Kernels that drive the caps of C16: frames by GOSUB and by function recursion, 33 FOR
